@@ -1,10 +1,13 @@
 import Driver.Syntax
-/-! Driver ops for C06: `parse <xBYTES> (<xBADRX>*)` (syntax in harness/c06, harness/syn). -/
+/-! Driver ops for C06: `parse <xBYTES> (<xBADRX>*)`, `resolve <xBYTES> (<xBADRX>*) [((BITS xTEXT)*)]` (syntax in harness/c06,
+    harness/syn). -/
 namespace C06
 open Sx
 
 def exec : List Sexp → String
   | [.atom "parse", b, bad] => Syn.parseOp b bad
+  | [.atom "resolve", b, bad] => Syn.resolveOp b bad none
+  | [.atom "resolve", b, bad, fl] => Syn.resolveOp b bad (some fl)
   | _ => "bad-op"
 
 end C06
